@@ -21,6 +21,16 @@ fn main() {
             }
             bad
         },
+        // F3: separators enabled for the integer only; a separator-free input with >= 8 fraction digits was mis-scaled
+        #[cfg(feature = "format")]
+        "f3" => {
+            use core::num::NonZeroU8;
+            const F: u128 = lexical_core::NumberFormatBuilder::new().digit_separator(NonZeroU8::new(b'_')).integer_internal_digit_separator(true).build_strict();
+            let opts = lexical_core::ParseFloatOptions::new();
+            let r = lexical_core::parse_with_options::<f64, F>(b"1.123456789", &opts);
+            println!("parse_with_options::<f64, integer-internal-separator format>(b\"1.123456789\") = {r:?} (expected Ok(1.123456789))");
+            if r == Ok(1.123456789) { 0 } else { 1 }
+        },
         _ => { eprintln!("unknown witness"); 2 },
     };
     std::process::exit(if code > 0 { 1 } else { 0 });
